@@ -1,5 +1,8 @@
 import ExoVerif.Generated.Facts
+import ExoVerif.Generated.Kernels
 import ExoVerif.Props.C18
+import ExoVerif.Props.C18Assets
+import ExoVerif.Props.C18Mods
 /-!
 # C18 tie: the prefixes and the export/import call lists of the model are those of the Go code
 
@@ -65,5 +68,93 @@ theorem C18_tie_init_calls : genesisInitCalls = [
     ("oracle", ["SetPrices", "SetValidatorUpdateBlock", "SetIndexRecentParams", "SetIndexRecentMsg", "SetRecentMsg", "SetRecentParams", "SetStakerList", "SetStakerInfos", "SetParams"]),
     ("exomint", ["SetParams"]),
     ("feedistribution", ["SetParams"])] := by decide
+
+/-! ## x/assets -/
+
+/-- every exported x/assets collection is read from the prefix its InitGenesis setter writes: the model's four stores
+    (chains 1, tokens 2, staker rows 3, operator rows 4) -/
+theorem C18_tie_assets_prefix_pairs : assetsPrefixPairs =
+    [("GetAllClientChainInfo", "SetClientChainInfo", 1, 1), ("GetAllStakingAssetsInfo", "SetStakingAssetInfo", 2, 2),
+     ("AllDeposits", "UpdateStakerAssetState", 3, 3), ("AllOperatorAssets", "UpdateOperatorAssetState", 4, 4)] := by decide
+
+theorem C18_tie_assets_prefix_pairs_agree : ∀ p ∈ assetsPrefixPairs, p.2.2.1 = p.2.2.2 := by decide
+
+set_option maxRecDepth 8000 in
+/-- the store key of every setter is computed from the value / ids it is given: `StoreInv.*Key`
+    (hexNat lzID, assetIDOf, joinKey staker asset, joinKey operator asset) -/
+theorem C18_tie_assets_store_keys : assetsStoreKeys = [
+    ("SetClientChainInfo", "[]byte(hexutil.EncodeUint64(info.LayerZeroChainID))"),
+    ("SetStakingAssetInfo", "[]byte(assetID) where assetID := assetstype.GetStakerIDAndAssetIDFromStr(info.AssetBasicInfo.LayerZeroChainID, \"\", info.AssetBasicInfo.Address)"),
+    ("UpdateStakerAssetState", "key := assetstype.GetJoinedStoreKey(stakerID, assetID)"),
+    ("UpdateOperatorAssetState", "key := assetstype.GetJoinedStoreKey(operatorAddr.String(), assetID)")] := by decide
+
+/-- InitGenesis re-creates the rows by ADDING the exported row to the stored one (`stepDep` / `stepOp`) -/
+theorem C18_tie_assets_rows_as_delta : assetsInitRowsAsDelta = true := by decide
+
+/-- … with UpdateAssetValue, whose regenerated kernel is the model's `updVal` -/
+theorem C18_tie_assets_updVal (v c : Int) :
+    updateAssetValue v c = (match updVal v c with | some x => Except.ok x | none => Except.error "ErrSubAmountIsMoreThanOrigin") := by
+  unfold updateAssetValue updVal
+  by_cases h1 : c < 0 <;> by_cases h2 : v < -c <;> by_cases h3 : c = 0 <;> simp [h1, h2, h3] <;> omega
+
+/-- `stepToken`: the three refusals of SetStakingAssetInfo and MaxDecimal = 18 -/
+theorem C18_tie_assets_set_token_guards : assetsSetTokenGuards =
+    (["info.AssetBasicInfo.Decimals > assetstype.MaxDecimal", "info.StakingTotalAmount.IsNegative()", "store.Has([]byte(assetID))"], 18) := by decide
+
+/-- `validateAssets`: the five checks in the order of GenesisState.Validate -/
+theorem C18_tie_assets_validate_order : assetsValidateOrder =
+    ["ValidateClientChains", "ValidateTokens", "ValidateDeposits", "ValidateOperatorAssets", "Params.Validate"] := by decide
+
+set_option maxRecDepth 8000 in
+/-- … and every rejection of the four Validate* functions (`validateChains`, `validateTokens`, `validateDepItem` /
+    `validateDeposits`, `validateOpItem` / `validateOpAssets`; the nil checks and the bech32 check are not modelled).
+    A dropped or added check changes this list. -/
+theorem C18_tie_assets_validate_checks : assetsValidateChecks = [
+    ("ValidateClientChains", ["nil Name for chain %d", "nil AddressLength for chain %s"]),
+    ("ValidateTokens", ["unknown LayerZeroChainID for token %s, clientChainID: %d", "contains uppercase characters for token %s, address: %s",
+      "not hex address for token %s, address: %s", "nil total staking amount for asset %s"]),
+    ("ValidateDeposits", ["invalid stakerID: %s", "unknown LayerZeroChainID for staker %s: %d", "unknown assetID for deposit %s: %s",
+      "mismatched client chain IDs for staker %s and asset %s", "nil deposit info for %s: %+v", "negative deposit amount for %s: %+v",
+      "invalid deposit amount that is greater than the total staking, assetID: %s: %+v",
+      "the sum of PendingUndelegationAmount and WithdrawableAmount is greater than the TotalDepositAmount, assetID: %s: %+v"]),
+    ("ValidateOperatorAssets", ["invalid operator address %s: %s", "unknown assetID for operator assets %s: %s",
+      "operator's sum amount exceeds the total staking amount for %s: %+v", "operator's share exceeds the total share for %s: %+v"])] := by decide
+
+/-! ## x/exomint, x/feedistribution, x/oracle -/
+
+/-- the genesis messages: params only for mint and fee distribution (`exportMint`, `exportDistr`), the nine fields of
+    `OracleDoc` for the oracle — no field for the nonces -/
+theorem C18_tie_genesis_fields : genesisStateFields = [
+    ("exomint", ["Params"]), ("feedistribution", ["Params"]),
+    ("oracle", ["Params", "PricesList", "ValidatorUpdateBlock", "IndexRecentParams", "IndexRecentMsg", "RecentMsgList",
+                "RecentParamsList", "StakerInfosAssets", "StakerListAssets"])] := by decide
+
+/-- what the x/feedistribution store can hold besides the params: the five collections of `Distr` that the round trip
+    empties (F-18e) -/
+theorem C18_tie_feedistribution_store_keys : feedistributionStoreKeys =
+    ["KeyPrefixParams", "KeyPrefixEpochIdentifier", "FeePoolKey", "ValidatorAccumulatedCommissionPrefix",
+     "ValidatorCurrentRewardsPrefix", "ValidatorOutstandingRewardsPrefix", "StakerOutstandingRewardsPrefix"] := by decide
+
+/-- the oracle's key prefixes: the nonce prefix exists in the store and in no exporter (F-18f) -/
+theorem C18_tie_oracle_nonce_prefix_not_exported :
+    ("NonceKeyPrefix", "KeyNonce/value/") ∈ oracleKeyPrefixes ∧ ∀ c ∈ oracleCollectionPrefixes, c.2.2.1 ≠ "NonceKeyPrefix" := by decide
+
+/-- every exported oracle collection is read from the prefix its setter writes -/
+theorem C18_tie_oracle_collections : oracleCollectionPrefixes = [
+    ("GetAllPrices", "getPriceTRStore", "PricesKeyPrefix", "PricesKeyPrefix"),
+    ("GetValidatorUpdateBlock", "SetValidatorUpdateBlock", "ValidatorUpdateBlockKey", "ValidatorUpdateBlockKey"),
+    ("GetIndexRecentParams", "SetIndexRecentParams", "IndexRecentParamsKey", "IndexRecentParamsKey"),
+    ("GetIndexRecentMsg", "SetIndexRecentMsg", "IndexRecentMsgKey", "IndexRecentMsgKey"),
+    ("GetAllRecentMsg", "SetRecentMsg", "RecentMsgKeyPrefix", "RecentMsgKeyPrefix"),
+    ("GetAllRecentParams", "SetRecentParams", "RecentParamsKeyPrefix", "RecentParamsKeyPrefix"),
+    ("GetAllStakerInfosAssets", "SetStakerInfos", "NativeTokenStakerInfoKeyPrefix", "NativeTokenStakerInfoKeyPrefix"),
+    ("GetAllStakerListAssets", "SetStakerList", "NativeTokenStakerListKeyPrefix", "NativeTokenStakerListKeyPrefix")] := by decide
+
+/-- F-18l: the model's `codeOracleCfg` is the code's — the staker-list exporter returns the full store key, and the
+    prefix is the regenerated one. A repair (iterating a prefix store) flips the fact and breaks this theorem; the model
+    must then use `listKeyFull := false`, for which `C18_oracle_stakerlists_if_prefix_store` holds. -/
+theorem C18_tie_oracle_stakerlist_full_key :
+    oracleStakerListExportsFullKey = codeOracleCfg.listKeyFull ∧
+    ("NativeTokenStakerListKeyPrefix", codeOracleCfg.listPrefix) ∈ oracleKeyPrefixes := by decide
 
 end ExoVerif.Genesis
